@@ -29,6 +29,7 @@ func RegisterAll() {
 	run.Register(&c05{})
 	run.Register(&c06{})
 	run.Register(&c07{})
+	run.Register(&c08{})
 	run.Register(&c12{})
 }
 
